@@ -209,6 +209,9 @@ class Builder():
             return None
 
         self.preprocess()
+        if not self.stages: # (nothing but includes of files without any document)
+            return None
+
         self.flatten()
         return self.stages[0]
 
